@@ -1,6 +1,7 @@
 package main
 
 import (
+	"sync"
 	"bufio"
 	"encoding/hex"
 	"encoding/json"
@@ -17,6 +18,7 @@ import (
 	"github.com/anoideaopen/foundation/core/balance"
 	fpb "github.com/anoideaopen/foundation/proto"
 	"github.com/golang/protobuf/proto" //nolint:staticcheck
+	"github.com/hyperledger/fabric-protos-go/msp"
 )
 
 // C14: every vector is run in a CHILD process hosting the chaincode, so that a process death is an
@@ -44,7 +46,7 @@ func boolsTerm(l []bool) string {
 
 func genC14(c *Ctx) error {
 	c.ShardSize = 600
-	c.Notes["rule"] = "every vector runs in a child process hosting the chaincode (a process death is observed by the parent, which restarts the child after the crasher). plain: every entry point (Init, every function of the contract's router, batchExecute, executeTasks, swapDone, multiSwapDone, createIndex, the robot's transfer functions, unknown and empty names) x argument vectors of length 0..n+2 (correctly signed requests truncated / extended / permuted, addresses, numbers, JSON, protobuf, random bytes, empty, 64 KiB) x creator (robot, client, admin, garbage) x access-control replies (ok, error status, empty, garbled, ok without address, key-type list short / long / missing). batch: batchExecute with 1-5 pending transactions whose bodies put / fail / panic / nil-map-panic, swap answers and swap keys (well-formed, unknown, empty id) - per item: completed or not. tasks: executeTasks with 1-5 tasks whose bodies put / panic, tasks with fewer or more arguments than the method expects, unknown methods, access-control replies garbled for one signer - per task: completed or not. Non-trivial: the vector makes at least one frame panic or is malformed."
+	c.Notes["rule"] = "(one vector in sixty is a burst: 8 goroutines x 150 queries at once, every one by a creator the process has not seen before) every vector runs in a child process hosting the chaincode (a process death is observed by the parent, which restarts the child after the crasher). plain: every entry point (Init, every function of the contract's router, batchExecute, executeTasks, swapDone, multiSwapDone, createIndex, the robot's transfer functions, unknown and empty names) x argument vectors of length 0..n+2 (correctly signed requests truncated / extended / permuted, addresses, numbers, JSON, protobuf, random bytes, empty, 64 KiB) x creator (robot, client, admin, garbage) x access-control replies (ok, error status, empty, garbled, ok without address, key-type list short / long / missing). batch: batchExecute with 1-5 pending transactions whose bodies put / fail / panic / nil-map-panic, swap answers and swap keys (well-formed, unknown, empty id) - per item: completed or not. tasks: executeTasks with 1-5 tasks whose bodies put / panic, tasks with fewer or more arguments than the method expects, unknown methods, access-control replies garbled for one signer - per task: completed or not. Non-trivial: the vector makes at least one frame panic or is malformed."
 	total := c.N(700, 12000)
 	self, err := os.Executable()
 	if err != nil {
@@ -202,6 +204,10 @@ func c14Child(args []string) int {
 			aclDesc = "keytypes:" + w.Peer.ACL.KeyTypes
 		}
 		nextNonce := func() string { nonce++; return strconv.FormatUint(nonce, 10) }
+		if i%60 == 7 {
+			c14Burst(w, i, emit)
+			continue
+		}
 		switch k := rng.Intn(11); {
 		case k == 10:
 			c14Init(w, rng, accs, i, emit)
@@ -215,6 +221,38 @@ func c14Child(args []string) int {
 		}
 	}
 	return 0
+}
+
+// c14Burst: many invocations at once, every one by an identity this process has not seen before (the first burst after a
+// restart, a certificate rotation): 8 goroutines x 150 queries, each with a creator of its own. The process must survive and
+// every invocation must get a reply.
+func c14Burst(w *World, i int, emit func(c14Rec)) {
+	emit(c14Rec{I: i, Phase: "start", Kind: "plain", Desc: "burst: 8 goroutines x 150 metadata queries, every creator new to the process"})
+	var si msp.SerializedIdentity
+	_ = proto.Unmarshal(w.Client.Creator, &si)
+	var wg sync.WaitGroup
+	var mu sync.Mutex
+	replied, worst := true, int32(200)
+	for g := 0; g < 8; g++ {
+		wg.Add(1)
+		go func(g int) {
+			defer wg.Done()
+			for k := 0; k < 150; k++ {
+				cr, _ := proto.Marshal(&msp.SerializedIdentity{Mspid: fmt.Sprintf("msp_%d_%d_%d", i, g, k), IdBytes: si.GetIdBytes()})
+				res, _ := w.Peer.Simulate("tt", fmt.Sprintf("%064x", 900000000+i*10000+g*1000+k), cr, false, strArgs("metadata", nil))
+				mu.Lock()
+				if res.Panicked != nil || res.Status == 0 {
+					replied = false
+				}
+				if res.Status > worst {
+					worst = res.Status
+				}
+				mu.Unlock()
+			}
+		}(g)
+	}
+	wg.Wait()
+	emit(c14Rec{I: i, Phase: "done", Replied: replied, Status: worst})
 }
 
 func randBytes(rng *rand.Rand, n int) string {
